@@ -17,9 +17,12 @@ VERIF = os.path.dirname(os.path.dirname(os.path.abspath(__file__)))
 REPO = os.environ.get("VERIF_REPO", "/repo")
 SPECS = os.path.join(VERIF, "specs")
 HARNESS_SRC = os.path.join(VERIF, "harness")
-WORK = os.path.join(VERIF, "work")
+# VERIF_WORKTAG=<name> gives a run its own scratch area (and evidence directory) so that it can run next to
+# another run of the same check (seed sweeps while a thorough tier is running)
+_TAG = os.environ.get("VERIF_WORKTAG", "")
+WORK = os.path.join(VERIF, "work", "tag_" + _TAG) if _TAG else os.path.join(VERIF, "work")
 # runs against a scratch checkout (mutation testing, VERIF_REPO) must not overwrite the evidence of /repo
-EVIDENCE = os.path.join(VERIF, "evidence") if os.path.realpath(REPO) == "/repo" else os.path.join(WORK, "evidence_scratch")
+EVIDENCE = os.path.join(VERIF, "evidence") if os.path.realpath(REPO) == "/repo" and not _TAG else os.path.join(WORK, "evidence_scratch")
 
 
 def _shadow_harness():
